@@ -1,0 +1,18 @@
+//go:build verif
+
+package blobpacked
+
+import "perkeep.org/pkg/blobserver"
+
+// VerifSetMaxZipBlobSize forces the maximum size of the zip blobs that sto
+// (which must be a blobpacked storage) writes, so that packs made of several
+// zips can be produced from small files. It exists only under the "verif"
+// build tag, for the verification harness in /verif.
+func VerifSetMaxZipBlobSize(sto blobserver.Storage, n int) bool {
+	s, ok := sto.(*storage)
+	if !ok {
+		return false
+	}
+	s.forceMaxZipBlobSize = n
+	return true
+}
